@@ -4,7 +4,7 @@
    statement holds for any scalar structure S (reals, binary64) and for decks of
    any size. *)
 From Coq Require Import List NArith ZArith Bool String Ascii Lia.
-From T4V Require Import Base.Str Base.Scalar C17.Model C17.Proofs C17.ProofsStrings.
+From T4V Require Import Base.Str Base.Scalar C17.Model C17.Proofs C17.ProofsStrings C17.ProofsSteps.
 Import ListNotations.
 Open Scope string_scope.
 
@@ -332,6 +332,91 @@ Theorem C17_latopt_malformed_rejected : forall T (S : Scalar T) (d : deckm (T:=T
 Proof. exact @run_latopt_malformed_rejected. Qed.
 Print Assumptions C17_latopt_malformed_rejected.
 
+(* ---------------- a faulty keyword behind ANY options ---------------- *)
+
+(* the executed keyword loop is the iteration of [kw_step] (one keyword and its
+   arguments per turn); [arrives trs l k l' k' n] = started on l in state k the
+   loop stands in front of l' in state k' after n turns.  If the loop does not
+   arrive at a keyword, an earlier option failed (the run is not Ok either) or
+   the keyword was swallowed as the value of IMP/U/LAT/RHO/MAT. *)
+Theorem C17_keyword_loop_unfold : forall T (S : Scalar T) f trs e rest k,
+  parse_kw S (Datatypes.S f) trs (e :: rest) k =
+  bind (kw_step S trs e rest k) (fun p => parse_kw S f trs (fst p) (snd p)).
+Proof. exact @parse_kw_unfold. Qed.
+Print Assumptions C17_keyword_loop_unfold.
+
+Theorem C17_inline_trcl_m_rejected_any : forall T (S : Scalar T) (d : deckm (T:=T)) c e ps rest,
+  In c (d_cells d) ->
+  (forall trs, stage_trs S (d_trs d) [] = Ok trs ->
+     exists k n, arrives S trs (c_toks c) kws0 (e :: ps ++ rest)%list k n) ->
+  prefix "imp" (tsp e) = false -> contains_sub "fill" (tsp e) = false ->
+  contains_sub "lat" (tsp e) = false -> contains_sub "trcl" (tsp e) = true ->
+  forallb numeric_lead ps = true -> forallb (fun p => num_lit (tsp p)) ps = true ->
+  stops rest -> List.length ps = 13%nat ->
+  seqb S (last (map tval ps) (s1 S)) (s1 S) = false ->
+  is_ok (validate S d) = false.
+Proof. exact @run_inline_trcl_m_rejected_any. Qed.
+Print Assumptions C17_inline_trcl_m_rejected_any.
+
+Theorem C17_inline_fill_m_rejected_any : forall T (S : Scalar T) (d : deckm (T:=T)) c e u ps rest,
+  In c (d_cells d) ->
+  (forall trs, stage_trs S (d_trs d) [] = Ok trs ->
+     exists k n, arrives S trs (c_toks c) kws0 (e :: u :: ps ++ rest)%list k n) ->
+  prefix "imp" (tsp e) = false -> contains_sub "fill" (tsp e) = true ->
+  has_colon u = false -> float_lit (tsp u) = true ->
+  forallb numeric_lead ps = true -> forallb (fun p => num_lit (tsp p)) ps = true ->
+  stops rest -> List.length ps = 13%nat ->
+  seqb S (last (map tval ps) (s1 S)) (s1 S) = false ->
+  is_ok (validate S d) = false.
+Proof. exact @run_inline_fill_m_rejected_any. Qed.
+Print Assumptions C17_inline_fill_m_rejected_any.
+
+Theorem C17_fill_array_short_rejected_any : forall T (S : Scalar T) (d : deckm (T:=T)) c e first rs nums b,
+  In c (d_cells d) ->
+  (forall trs, stage_trs S (d_trs d) [] = Ok trs ->
+     exists k n, arrives S trs (c_toks c) kws0 (e :: first :: rs ++ nums)%list k n) ->
+  prefix "imp" (tsp e) = false -> contains_sub "fill" (tsp e) = true ->
+  has_colon first = true -> forallb has_colon rs = true ->
+  Forall (fun t => has_colon t = false) nums -> Forall (plain (T:=T)) nums ->
+  parse_ranges (map tsp (first :: rs)) = Ok b ->
+  (Z.of_nat (List.length nums) < bounds_size b)%Z ->
+  is_ok (validate S d) = false.
+Proof. exact @run_fill_array_short_rejected_any. Qed.
+Print Assumptions C17_fill_array_short_rejected_any.
+
+Theorem C17_lattice_no_opt_rejected_any : forall T (S : Scalar T) (d : deckm (T:=T)) c,
+  In c (d_cells d) ->
+  (forall lat, parse_lattice (d_latopts d) = Ok lat -> lookup (c_id c) lat = None) ->
+  (forall trs, stage_trs S (d_trs d) [] = Ok trs ->
+     exists k n fr, arrives S trs (c_toks c) kws0 [] k n /\
+                    k_fill k = Some fr /\ f_bounds fr = None /\ k_lat k <> None) ->
+  is_ok (validate S d) = false.
+Proof. exact @run_lattice_no_opt_rejected_any. Qed.
+Print Assumptions C17_lattice_no_opt_rejected_any.
+
+(* options the loop is proved to consume exactly: the skippable ones, and TRCL /
+   FILL=n with an inline transformation of an accepted length; they compose *)
+Theorem C17_arrives_options : forall T (S : Scalar T) trs,
+  (forall pre n, skippable pre n -> forall suffix k, exists k', arrives S trs (pre ++ suffix)%list k suffix k' n) /\
+  (forall e ps rest k,
+     prefix "imp" (tsp e) = false -> contains_sub "fill" (tsp e) = false ->
+     contains_sub "lat" (tsp e) = false -> contains_sub "trcl" (tsp e) = true ->
+     forallb numeric_lead ps = true -> forallb (fun p => num_lit (tsp p)) ps = true ->
+     stops rest -> List.length ps <> 1%nat -> List.length ps <> 13%nat ->
+     tr_len_ok (List.length ps) = true ->
+     exists k', arrives S trs (e :: ps ++ rest)%list k rest k' 1) /\
+  (forall e u ps rest k,
+     prefix "imp" (tsp e) = false -> contains_sub "fill" (tsp e) = true ->
+     has_colon u = false -> float_lit (tsp u) = true ->
+     forallb numeric_lead ps = true -> forallb (fun p => num_lit (tsp p)) ps = true ->
+     stops rest -> List.length ps <> 1%nat -> List.length ps <> 13%nat ->
+     tr_len_ok (List.length ps) = true ->
+     exists k', arrives S trs (e :: u :: ps ++ rest)%list k rest k' 1) /\
+  (forall l k l1 k1 l2 k2 n m,
+     arrives S trs l k l1 k1 n -> arrives S trs l1 k1 l2 k2 m -> arrives S trs l k l2 k2 (n + m)).
+Proof. exact @p_C17_arrives_options. Qed.
+Print Assumptions C17_arrives_options.
+
 (* ---------------- summary ---------------- *)
 
 (* every run that finishes normally is free of: malformed --lattice arguments,
@@ -370,6 +455,17 @@ Proof.
   - apply sk_u; try reflexivity. apply sk_nil.
   - apply sk_nil.
   - apply sk_imp; try reflexivity. apply sk_nil.
+Qed.
+
+(* FILL=2 (1 2 3) in front of a TRCL keyword: the loop arrives at the TRCL *)
+Example arrives_behind_fill : forall T (S : Scalar T) (suffix : list (tok (T:=T))),
+  stops suffix ->
+  exists k', arrives S [] ([tk S "fill" 0; tk S "2" 2; tk S "1" 1; tk S "2" 2; tk S "3" 3]%Z ++ suffix)%list
+                     kws0 suffix k' 1.
+Proof.
+  intros T S suffix Hs.
+  apply (arrives_fill_n S [] (tk S "fill" 0%Z) (tk S "2" 2%Z) [tk S "1" 1; tk S "2" 2; tk S "3" 3]%Z suffix kws0);
+    try reflexivity; try exact Hs; discriminate.
 Qed.
 
 (* options the keyword loop steps over: IMP:N=1 U=2 in front of a keyword *)
